@@ -21,6 +21,13 @@ def coq_call(c):
     if k == "fd_prestat_get": return "FdPrestatGet %d" % c[1]
     if k == "fd_fdstat_get": return "FdFdstatGet %d" % c[1]
     if k == "poll_clock": return "PollClock %d %d %d %d" % (c[1], c[2], c[3], c[4])
+    if k == "poll":
+        def sub(x):
+            if x[0] == "clock": return "SClock %d %d %d" % (x[1], x[2], x[3])
+            if x[0] == "read": return "SFdRead %d %d" % (x[1], x[2])
+            if x[0] == "write": return "SFdWrite %d %d" % (x[1], x[2])
+            return "SOther %d %d" % (x[1], x[2])
+        return "Poll [%s]" % "; ".join(sub(x) for x in c[1])
     if k == "sched_yield": return "SchedYield"
     if k == "path_open": return "PathOpen %d" % c[1]
     raise ValueError(k)
@@ -72,6 +79,14 @@ def oracle(calls, trace, stream):
             if fd >= 3 and e == 0: return "call %d %s succeeded: a file, directory or socket of the host is visible" % (j, c), k
         elif k == "poll_clock":
             if c[3] == 0 and e != 0: return "call %d %s failed with errno %d" % (j, c, e), k
+        elif k == "poll" and e == 0:
+            # stdin is empty and never blocks: every subscription is answered exactly once, identified by its userdata
+            n = len(c[1])
+            evs = [b[4 + 32 * i: 4 + 32 * i + 32] for i in range(n)]
+            if le(b[:4]) != n: return "call %d %s reported %d events for %d subscriptions" % (j, c, le(b[:4]), n), k
+            got = sorted(le(ev[:8]) for ev in evs)
+            want = sorted(x[3] if x[0] == "clock" else x[2] for x in c[1])
+            if got != want: return "call %d %s answered userdata %s" % (j, c, got), k
     return None, None
 
 
@@ -81,7 +96,7 @@ def run(tier, seed):
                    "hand transcription of toSysContext/NewContext and of the WASI clock/random/args/environ/poll/sched/fd functions in coq/Sys/DefaultCtx.v, tied by the correspondence run",
                    "the fixed-seed random stream is abstract in the theorems; in the run it is taken from the longest trace of the first child process and every other trace, process and engine must continue the same stream",
                    "harness/c18 (Go: self re-executing children, proxy guest) and checks/c18.py (case conversion, oracle)"]
-    ck.assumptions += ["the guest uses only the modelled WASI calls (clock_time_get, clock_res_get, random_get, args/environ sizes+get, fd_read, fd_write, fd_prestat_get, fd_fdstat_get, poll_oneoff with one clock subscription, sched_yield, path_open); memory-fault paths (EFAULT) belong to C15",
+    ck.assumptions += ["the guest uses only the modelled WASI calls (clock_time_get, clock_res_get, random_get, args/environ sizes+get, fd_read, fd_write, fd_prestat_get, fd_fdstat_get, poll_oneoff with one clock subscription and with lists of up to 8 clock / fd_read / fd_write / unknown subscriptions (all open descriptors blocking), sched_yield, path_open); memory-fault paths (EFAULT) belong to C15",
                        "fd_prestat_get on descriptors 0..2 answers success with an empty name (stdio entries are flagged pre-open): modelled as implemented",
                        "math/rand's Read is positional (the k-th byte does not depend on chunking): checked by the run, assumed by the abstract stream"]
     proofs_ok = ck.proofs()
